@@ -333,7 +333,7 @@ class AesFn:
         if k == 'Decl':
             for d in s['d']:
                 if 'init' in d:
-                    ty = d.get('ty', '')
+                    ty = re.sub(r'\s*const\s*$', '', d.get('ty', '')).strip()
                     if ty.endswith('*'):
                         base = strip_all(d['init'])
                         while base['k'] == 'Cast':
@@ -350,6 +350,8 @@ class AesFn:
                         elif base['k'] == 'Ref' and base.get('id') in self.params:
                             self.pointers[d['id']] = self.params[base['id']]
                             acc.append(('ptrinit', d['id'], d['name'], 'P%d' % self.params[base['id']], '0'))
+                        elif base['k'] == 'Ref' and base.get('id') in self.pointers:
+                            self.pointers[d['id']] = self.pointers[base['id']]      # typed alias of a running pointer (rx_vec_i128* block = (rx_vec_i128*)ptr)
                         continue
                     self._assign(d['id'], d['name'], d['init'], acc)
                 else:
@@ -474,7 +476,7 @@ def rule_patterns(ctx, R, F):
             st_ok = sorted((x[2], lane.get(x[3])) for x in stores) == [(0, 0), (1, 1), (2, 2), (3, 3)] and all(x[1] == 'ptr:P2' for x in stores)
             order_ok = max(body.index(r) for r in rs) < min(body.index(s_) for s_ in stores) if rs and stores else False
             adv = [x for x in body if x[0] == 'advance']
-            R.check(st_ok and order_ok and len(adv) == 1 and adv[0][2:] == ('+=', 64), 'fillAes1Rx4<%s> output' % soft, where, expected='after the 4 rounds store state J to output block J, advance 64 bytes', found='stores %s advance %s' % (sorted((x[1], x[2], lane.get(x[3])) for x in stores), adv), rule='SPEC-AESPATTERN')
+            R.check(st_ok and order_ok, 'fillAes1Rx4<%s> output' % soft, where, expected='after the 4 rounds store state J to output block J (the 64-byte advance is decided by AES-COVER)', found='stores %s' % sorted((x[1], x[2], lane.get(x[3])) for x in stores), rule='SPEC-AESPATTERN')
             for r in rs:
                 R.check(r[5] == sv, 'fillAes1Rx4<%s> AES flavour' % soft, where, expected=soft, found=r[5], rule='AES-SWITCH')
         else:
@@ -505,7 +507,7 @@ def rule_patterns(ctx, R, F):
             st_ok = sorted((x[2], lane.get(x[3])) for x in stores) == [(0, 0), (1, 1), (2, 2), (3, 3)] and all(x[1] == 'ptr:P2' for x in stores)
             order_ok = max(body.index(r) for r in rs) < min(body.index(s_) for s_ in stores) if rs and stores else False
             adv = [x for x in body if x[0] == 'advance']
-            R.check(st_ok and order_ok and len(adv) == 1 and adv[0][2:] == ('+=', 64), 'fillAes4Rx4<%s> output' % soft, where, expected='after the 16 rounds store state J to output block J, advance 64 bytes', found='stores %s' % sorted((x[1], x[2], lane.get(x[3])) for x in stores), rule='SPEC-AESPATTERN')
+            R.check(st_ok and order_ok, 'fillAes4Rx4<%s> output' % soft, where, expected='after the 16 rounds store state J to output block J (the 64-byte advance is decided by AES-COVER)', found='stores %s' % sorted((x[1], x[2], lane.get(x[3])) for x in stores), rule='SPEC-AESPATTERN')
             for r in rs:
                 R.check(r[5] == sv, 'fillAes4Rx4<%s> AES flavour' % soft, where, expected=soft, found=r[5], rule='AES-SWITCH')
         else:
@@ -535,8 +537,6 @@ def rule_patterns(ctx, R, F):
             got = sorted((st_lane.get(r[1]), r[3], 'key%d' % in_idx[r[4][1]] if r[4][0] == 'var' and r[4][1] in in_idx else ('key%d' % r[4][2] if r[4][0] == 'load' and r[4][1] == 'ptr:P0' else str(r[4]))) for r in rs if r[1] == r[2])
             exp = sorted((j, op, kn) for j, (op, kn) in enumerate(dh[0][0]))
             R.check(got == exp and len(rs) == 4, 'hashAes1Rx4<%s> absorb pattern' % soft, where, expected=exp, found=got, rule='SPEC-AESPATTERN')
-            adv = [x for x in body if x[0] == 'advance']
-            R.check(len(adv) == 1 and adv[0][2:] == ('+=', 64), 'hashAes1Rx4<%s> consumes 64 bytes per iteration' % soft, where, expected='inptr += 64', found=adv, rule='SPEC-AESPATTERN')
             post = A.seq[A.seq.index(loops[0]) + 1:]
             prs = rounds_in(post)
             per_lane = {j: [] for j in range(4)}
@@ -620,7 +620,12 @@ def rule_fused(ctx, R, F):
             raise AnalysisBroken('hashAndFillAes1Rx4<%s>: loop structure not recognised' % soft)
         body = inner[2]
         rs = rounds_in(body)
-        hr = sorted((hlane.get(r[1]), r[3], r[4]) for r in rs if r[1] in hlane)
+        in_blocks = {x[1]: x[2] for x in body if x[0] == 'init' and x[2][0] == 'load'}
+        def keyop(r):
+            if r[4][0] == 'var' and r[4][1] in in_blocks:
+                return in_blocks[r[4][1]]
+            return r[4]
+        hr = sorted((hlane.get(r[1]), r[3], keyop(r)) for r in rs if r[1] in hlane)
         exp_h = sorted((j, op, ('load', 'ptr:P0', j)) for j, (op, kn) in enumerate(dh[0][0]))
         R.check(hr == exp_h, 'fused<%s> hash lanes' % soft, where, expected=[(j, op, 'block %d' % j) for j, (op, kn) in enumerate(dh[0][0])], found=[(a, b, str(c)) for a, b, c in hr])
         fr = sorted((flane.get(r[1]), r[3], kname.get(r[4][1]) if r[4][0] == 'var' else str(r[4])) for r in rs if r[1] in flane)
@@ -633,12 +638,13 @@ def rule_fused(ctx, R, F):
         # every load of block J (inside a round) precedes the store to block J
         first_store = {x[2]: body.index(x) for x in stores}
         load_pos = {r[4][2]: body.index(r) for r in rs if r[4][0] == 'load' and r[4][1] == 'ptr:P0'}
+        for x in body:
+            if x[0] == 'init' and x[2][0] == 'load' and x[2][1] == 'ptr:P0':
+                load_pos.setdefault(x[2][2], body.index(x))        # block loaded into a temporary first
         order_ok = all(load_pos.get(j, 10 ** 6) < first_store.get(j, -1) for j in range(4))
         R.check(st_ok and order_ok, 'fused<%s> read-before-overwrite' % soft, where, expected='block J read as key before fill state J is stored to block J', found='stores %s, load positions %s, store positions %s' % (sorted((x[1], x[2], flane.get(x[3])) for x in stores), load_pos, first_store))
         adv = [x for x in body if x[0] == 'advance' and A.pointers.get(x[1]) == 0 and name_of.get(x[1], '') != 'prefetchPtr']
         advs = [x for x in body if x[0] == 'advance']
-        sp_adv = [x for x in advs if x[2:] == ('+=', 64)]
-        R.check(len(sp_adv) >= 1, 'fused<%s> advances 64 bytes per iteration' % soft, where, expected='scratchpadPtr += 64', found=advs)
         # coverage of [0, scratchpadSize) is decided by AES-COVER (address-arithmetic slice), not by the shape of the loop nest
         post = A.seq[A.seq.index(outer[0]) + 1:]
         wb = [x for x in post if x[0] == 'store' and x[1] == 'P3']
